@@ -365,6 +365,23 @@ var profC16 = vlib.Profile{
 	Weights: map[string]int{"grow": 40, "refresh": 10, "fork": 8, "wrongold": 6, "badproof": 10, "garbage": 6, "wrongkey": 8, "wrongorigin": 4, "unknownlog": 3, "smaller": 3, "decorated": 8, "zero": 6},
 }
 
+// ctxBody is a response body that dies with its request's context (net/http: "the
+// context controls the entire lifetime of a request and its response: obtaining a
+// connection, sending the request, and reading the response headers and body").
+type ctxBody struct {
+	ctx context.Context
+	rc  io.ReadCloser
+}
+
+func (b ctxBody) Read(p []byte) (int, error) {
+	if err := b.ctx.Err(); err != nil {
+		return 0, err
+	}
+	return b.rc.Read(p)
+}
+
+func (b ctxBody) Close() error { return b.rc.Close() }
+
 type rtFunc func(*http.Request) (*http.Response, error)
 
 func (f rtFunc) RoundTrip(r *http.Request) (*http.Response, error) { return f(r) }
@@ -389,9 +406,16 @@ func runC16(c *vlib.HistCase) (bool, []string, error) {
 	}
 	base, _ := url.Parse("http://witness.test/")
 	cl := wit_http.NewWitness(base, &http.Client{Transport: rtFunc(func(req *http.Request) (*http.Response, error) {
+		if err := req.Context().Err(); err != nil {
+			return nil, err
+		}
 		rec := httptest.NewRecorder()
 		r.ServeHTTP(rec, req)
-		return rec.Result(), nil
+		resp := rec.Result()
+		// like a real transport: the request's context governs the body as well - once it
+		// is cancelled, reading the body fails
+		resp.Body = ctxBody{ctx: req.Context(), rc: resp.Body}
+		return resp, nil
 	})})
 	ctx := context.Background()
 
